@@ -360,9 +360,21 @@ def updateTree (t : Tree) (conf : List QC) : Tree × Option CErr :=
 
 /-! ### partitions and the cluster context -/
 
+/-- what a partition shows besides its queues: the node sorting policy in force (objects.NewNodeSortingPolicy: type and
+    resource weights, weights as printed), the preemption flags (updatePreemption) and the placement rules in force
+    (names in order; the rule DAOs as one canonical text) -/
+structure PSettings where
+  nodeSort : String := ""
+  weights : List (String × String) := []
+  preemption : Bool := true
+  quotaPreemption : Bool := false
+  ruleNames : List String := []
+  rules : String := ""
+  deriving DecidableEq, Repr
+
 structure Part where
   tree : Tree
-  settings : String      -- node sorting policy, preemption flags, placement rules (opaque text)
+  settings : PSettings   -- node sorting policy, preemption flags, placement rules
   limits : String        -- the user / group limits last handed to the user manager for this partition (opaque text)
   deriving DecidableEq, Repr
 
@@ -370,7 +382,7 @@ structure PC where
   name : String
   rootName : String      -- name of the top queue as written
   queues : List QC
-  settings : String
+  settings : PSettings   -- as a fresh load of the configuration shows them
   limits : String
   rulesBad : Bool        -- AppPlacementManager.UpdateRules refuses the rule list
   deriving DecidableEq, Repr
@@ -383,8 +395,9 @@ def PC.fresh (pc : PC) : Except CErr Part :=
   | (t, none) => .ok { tree := t, settings := pc.settings, limits := pc.limits }
   | (_, some e) => .error e
 
-/-- updatePartitionDetails: placement rules first (the only step that can refuse what the dry run let through), node
-    sorting policy and preemption flags, the queues, and when they went through the limits -/
+/-- updatePartitionDetails: placement rules first (UpdateRules: the only step that can refuse what the dry run let
+    through — nothing has been written at that point), THEN the node sorting policy (updateNodeSortingPolicy) and the
+    preemption flags, the queues, and when they went through the limits -/
 def updatePartition (p : Part) (pc : PC) : Part × Option CErr :=
   if !(pc.rootName = "root") then (p, some .root) else
   if pc.rulesBad then (p, some .rules) else
